@@ -38,6 +38,20 @@ class ScriptedPlan(FaultPlan):
         return k
 
 
+class DirectionalPlan(FaultPlan):
+    """One direction is dead for its first n frames (a send that exhausts its retry budget), everything else benign."""
+
+    def __init__(self, tape, direction, n):
+        super().__init__(tape, True, {})
+        self.direction, self.n = direction, n
+
+    def decide(self, direction):
+        if self.on and direction == self.direction and self.n > 0:
+            self.n -= 1
+            return "drop"
+        return "deliver"
+
+
 class HostUpper:
     def __init__(self, loop, mon, log):
         self.loop, self.mon, self.log = loop, mon, log
@@ -91,6 +105,8 @@ def run(params, tape, detail=False):
         K = 1 + tape.draw(3, "K")
     if "script" in params:
         plan = ScriptedPlan(tape, params["script"])
+    elif "drop_first" in params:
+        plan = DirectionalPlan(tape, *params["drop_first"])
     elif params.get("faults", True):
         plan = FaultPlan.swarm(tape)
     else:
@@ -175,13 +191,13 @@ def run(params, tape, detail=False):
     recoveries = [0]
 
     async def main():
-        t = 0.0
+        t = params.get("host_start", 0.0)
         for i in range(n_host):
             t += GAPS[tape.draw(len(GAPS), "gap.h")]
             loop.external(t, start, i)
             if tape.chance(1, cancel_den, "cancel?"):
                 loop.external(t + CANCEL_AT[tape.draw(len(CANCEL_AT), "cancel.at")], cancel, i)
-        t2 = 0.0
+        t2 = params.get("ncp_start", 0.0)
         for j in range(n_ncp):
             t2 += GAPS[tape.draw(len(GAPS), "gap.n")]
             loop.external(t2, ncp.submit, ncp_payloads[j], j)
